@@ -8,9 +8,44 @@ import (
 	"go.uber.org/zap"
 )
 
+// watchLoop follows the leadership key for as long as the election runs and
+// the instance is started: watch events are the fast path, the 500ms periodic
+// check is the fallback that also works when no event is ever delivered.
+//
+// A follower without this loop would never notice a vacancy again, so the loop
+// never gives up: while the watch cannot be set up it is retried with backoff,
+// and when its channel closes the periodic check carries on alone.
 func (e *kvElection) watchLoop(ctx context.Context) {
-	watcher, err := e.kv.Watch(e.key)
-	if err != nil {
+	checkTicker := time.NewTicker(500 * time.Millisecond)
+	defer checkTicker.Stop()
+
+	for failures := 0; ; failures++ {
+		watcher, err := e.kv.Watch(e.key)
+		if err == nil {
+			log := e.getLogger()
+			log.Debug("watch_started",
+				append(e.logWithContext(ctx),
+					zap.String("key", e.key),
+				)...,
+			)
+			closed := e.runWatch(ctx, watcher, checkTicker)
+			watcher.Stop()
+			if !closed {
+				return
+			}
+			log.Debug("watch_closed",
+				e.logWithContext(ctx)...,
+			)
+			// When watcher closes, check if key still exists
+			// If not, trigger re-election
+			if !e.IsLeader() {
+				go e.checkKeyAndReelect(ctx)
+			}
+			// From here on the periodic check is the only source of information.
+			e.runWatch(ctx, nil, checkTicker)
+			return
+		}
+
 		log := e.getLogger()
 		log.Error("watch_failed",
 			append(e.logWithContext(ctx),
@@ -18,36 +53,38 @@ func (e *kvElection) watchLoop(ctx context.Context) {
 				zap.String("key", e.key),
 			)...,
 		)
-		return
+		retry := time.NewTimer(CalculateBackoff(DefaultBackoffConfig(), failures))
+	wait:
+		for {
+			select {
+			case <-ctx.Done():
+				retry.Stop()
+				return
+			case <-retry.C:
+				break wait
+			case <-checkTicker.C:
+				if !e.IsLeader() {
+					e.checkKeyAndReelect(ctx)
+				}
+			}
+		}
 	}
-	defer watcher.Stop()
+}
 
-	log := e.getLogger()
-	log.Debug("watch_started",
-		append(e.logWithContext(ctx),
-			zap.String("key", e.key),
-		)...,
-	)
-
-	checkTicker := time.NewTicker(500 * time.Millisecond)
-	defer checkTicker.Stop()
-
+// runWatch consumes one watcher (nil: none, periodic check only) until the
+// context ends (false) or the watcher's channel closes (true).
+func (e *kvElection) runWatch(ctx context.Context, watcher Watcher, checkTicker *time.Ticker) bool {
 	for {
+		var updates <-chan Entry
+		if watcher != nil {
+			updates = watcher.Updates()
+		}
 		select {
 		case <-ctx.Done():
-			return
-		case entry, ok := <-watcher.Updates():
+			return false
+		case entry, ok := <-updates:
 			if !ok {
-				log := e.getLogger()
-				log.Debug("watch_closed",
-					e.logWithContext(ctx)...,
-				)
-				// When watcher closes, check if key still exists
-				// If not, trigger re-election
-				if !e.IsLeader() {
-					go e.checkKeyAndReelect(ctx)
-				}
-				return
+				return true
 			}
 			e.handleWatchEvent(entry)
 		case <-checkTicker.C:
